@@ -86,6 +86,7 @@ class AssumptionDecider(object):
             s.set('timeout', 20000)
             s.add(*self.assumes)
             s.add(*self.extra)
+            s.add(*S.axioms)
             s.add(e if cand else z3.Not(e))
             res.append(str(s.check()))
             self.queries += 1
